@@ -236,3 +236,10 @@ def check(run):
 
     # ---------------- R18.5 time preservation
     C01.check_time_reference(run, "R18.5")
+    # the merge re-derives every offset from what CdnsBlockRead::read reconstructed: that reconstruction must not depend
+    # on the order of the block map's members or on an omitted (defaulted) parameters index
+    from . import C08
+    br = facts.fn("CDNS::CdnsBlockRead::read", rule="R18.5")
+    C08.check_order_independence(run, "R18.5", {br["key"]: consumption.analyse_full(br, facts)})
+    run.floors.pop("R18.5", None)
+    run.floor("R18.5", 8, "time-preservation obligations")
